@@ -12,6 +12,9 @@ PROPERTY = 'C17'
 LEVEL = 'exploration'
 ENGINE = 'bex'
 FLAVOURS = ('plain',)
+# plain flavour under the glibc malloc checker: a byte written past the end of a heap block by the (uninstrumented) Fortran
+# library aborts the process in free() and is reported as a killed interpreter
+EXTRA_ENV = {'plain': {'LD_PRELOAD': '/lib/x86_64-linux-gnu/libc_malloc_debug.so.0', 'MALLOC_CHECK_': '3'}}
 TECHNIQUE = 'bounded-exhaustive differential testing against a plain-Python BLAS model with full-buffer footprint comparison'
 RULE = ('one case = function x typecode x flag combination x mode (x first dimension); modes: "l1" full product of '
         'buffer lengths, n (given/omitted), increments and offsets for the level-1 routines; "x" every dimension, '
